@@ -711,6 +711,28 @@ func genVfy(c *ctx, emit func(string)) {
 	for _, l := range vfyFixed {
 		emit(l)
 	}
+	// an entry larger than 64 KiB whose LAST bytes are altered, in flight and at rest: the
+	// checksum covers every byte of Data (and Extensions), not a prefix
+	for k := 0; k < 2; k++ {
+		big := make([]byte, 66000+r.Intn(3000))
+		r.Read(big)
+		big[0] = 0x41 // not a checkpoint
+		ext := ""
+		if k == 1 {
+			e := make([]byte, 66000)
+			r.Read(e)
+			ext = hx(e)
+		} else {
+			ext = "-"
+		}
+		pos := len(big) - 1 - r.Intn(400)
+		mut := fmt.Sprintf("fd %x %x", pos, 1<<uint(r.Intn(8)))
+		if k == 1 {
+			mut = fmt.Sprintf("fe %x %x", 66000-1-r.Intn(400), 1<<uint(r.Intn(8)))
+		}
+		emit(fmt.Sprintf("vfy 2 m | a 0 2 1 1 0 %s %s 2 1 0 62 - | r 0 1 1 2 1 1 %s 1 2 | a 0 1 3 1 0 c0 - | r 0 1 3 3 0 1 1", hx(big), ext, mut))
+		emit(fmt.Sprintf("vfy 1 m | a 0 2 5 1 0 %s %s 6 1 0 64 - | t 0 5 %s | a 0 1 7 1 0 c0 -", hx(big), ext, mut))
+	}
 	// implementation-only regression case: StoreLogs vs concurrent compaction (vfy_race.go)
 	ms := "2000"
 	if c.tier == "thorough" {
